@@ -1,3 +1,4 @@
+#![allow(dead_code)]
 mod build;
 mod engine;
 mod gens;
@@ -5,6 +6,8 @@ mod refsem;
 mod spec;
 
 mod p01;
+mod p02;
+mod p03;
 
 use engine::*;
 use std::path::PathBuf;
@@ -13,6 +16,8 @@ macro_rules! for_prop {
     ($id:expr, $f:ident, $($arg:expr),*) => {
         match $id {
             "C01" => $f::<p01::P>($($arg),*),
+            "C02" => $f::<p02::P>($($arg),*),
+            "C03" => $f::<p03::P>($($arg),*),
             other => {
                 eprintln!("unknown property {other}");
                 std::process::exit(2)
